@@ -123,6 +123,42 @@ def element_unit():
     open spec fn eq_spec(&self, other: &Element) -> bool { spec_eq(mrepr(*self), mrepr(*other)) }
 }"""
     items.append(Item(EL, "impl PartialEq for Element", [Fn("eq", props=("C08", "C12", "C01"), preamble=BUM, attrs=R12)], pre=pre))
+    # conversion impls of the minimal backend (same contracts as the arkworks ones in units/arkcurve.py)
+    def conv(header, fn, pre, keep=(), **kw):
+        items.append(Item(EL, header, [Fn(fn, preamble=BUM, attrs=R12, **kw)], pre=pre, keep_assoc=keep))
+    enc_of = "Encoding(le32(spec_encode(mrepr(*point))))"
+    conv("impl From<&Element> for Encoding", "from", f"""impl<'a> FromSpecImpl<&'a Element> for Encoding {{
+    open spec fn obeys_from_spec() -> bool {{ true }}
+    open spec fn from_spec(point: &'a Element) -> Encoding {{ {enc_of} }}
+}}""", props=("C03", "C12"))
+    conv("impl From<Element> for Encoding", "from", f"""impl FromSpecImpl<Element> for Encoding {{
+    open spec fn obeys_from_spec() -> bool {{ true }}
+    open spec fn from_spec(point: Element) -> Encoding {{ {enc_of.replace("*point", "point")} }}
+}}""", props=("C03", "C12"))
+    conv("impl From<[u8; 32]> for Encoding", "from", """impl FromSpecImpl<[u8; 32]> for Encoding {
+    open spec fn obeys_from_spec() -> bool { true }
+    open spec fn from_spec(bytes: [u8; 32]) -> Encoding { Encoding(bytes) }
+}""", props=("C02", "C12"))
+    conv("impl From<Encoding> for [u8; 32]", "from", """impl FromSpecImpl<Encoding> for [u8; 32] {
+    open spec fn obeys_from_spec() -> bool { true }
+    open spec fn from_spec(enc: Encoding) -> [u8; 32] { enc.0 }
+}""", props=("C03", "C12"))
+    conv("impl From<Element> for [u8; 32]", "from", """impl FromSpecImpl<Element> for [u8; 32] {
+    open spec fn obeys_from_spec() -> bool { true }
+    open spec fn from_spec(enc: Element) -> [u8; 32] { le32(spec_encode(mrepr(enc))) }
+}""", props=("C03", "C12"))
+    conv("impl TryFrom<&Encoding> for Element", "try_from", """impl<'a> TryFromSpecImpl<&'a Encoding> for Element {
+    open spec fn obeys_try_from_spec() -> bool { true }
+    open spec fn try_from_spec(bytes: &'a Encoding) -> Result<Element, EncodingError> { decode_result_min(bytes.0@) }
+}""", props=("C02", "C12"), keep=("Error",))
+    conv("impl TryFrom<Encoding> for Element", "try_from", """impl TryFromSpecImpl<Encoding> for Element {
+    open spec fn obeys_try_from_spec() -> bool { true }
+    open spec fn try_from_spec(bytes: Encoding) -> Result<Element, EncodingError> { decode_result_min(bytes.0@) }
+}""", props=("C02", "C12"), keep=("Error",))
+    conv("impl TryFrom<[u8; 32]> for Element", "try_from", """impl TryFromSpecImpl<[u8; 32]> for Element {
+    open spec fn obeys_try_from_spec() -> bool { true }
+    open spec fn try_from_spec(bytes: [u8; 32]) -> Result<Element, EncodingError> { decode_result_min(bytes@) }
+}""", props=("C02", "C12"), keep=("Error",))
     items += ops_items()
     u = Unit(name="min_element",
              preludes=base_preludes() + [("subtle.rs", None), ("curve_spec.rs", None), ("min_spec.rs", None), ("ladder_lemmas.rs", None)],
